@@ -3,7 +3,7 @@
 import json, os, shutil, glob, subprocess
 TABLE = {
  # id: (patch file, caught?, signature class reported, note on what it took)
- "C01": ("patch.diff", True, "C01:validated_replay_seq:after_restart / seq_order (SideEffect pairs)", "caught as built"),
+ "C01": ("patch_ported.diff", True, "C01:validated_replay_seq:quiescence:SideEffect+SideEffect / Message+SideEffect", "caught as built on the tree it was written against. Later repo fixes moved the code; the patch was re-applied by hand to append_tool_side_effects (git apply with an offset had silently edited the neighbouring function). On the final tree the ported change was at first MISSED: the only scheduling point between releasing the seq lock and taking the log writer lock is a lock hook, and C01's filter treated lock hooks as pass-through when the lock is free. Lock acquisitions are now scheduling points in C01 (cont.next_seq, log.writer); caught again"),
  "C02": ("patch_ported.diff", True, "C02:read_only_call_wrote:replay_events", "patch ported to the current replay_events_locked; caught only after hostile thread ids ('../events') were added to the read-only call set - the idea came from this change"),
  "C03": ("patch.diff", True, "C03:store_replay_vs_log", "caught as built (history with drop_caches followed by an append)"),
  "C04": ("patch.diff", True, "C04:wrong_answer:compiled_context:.mr.v1.jsonl:garbage_same_length", "missed at first: needed a thread of >=16 messages whose last frame is not a message (so that the open-time reconciliation does not heal the garbage cache); the 18-message thread + suffixes were added to the quick tier after that, and the known-finding signatures were narrowed to the observed fault classes so they could not mask it"),
@@ -20,7 +20,7 @@ TABLE = {
  "C15": ("patch.diff", True, "C15:lossless:event_count / chunking", "missed at first: the stream alphabet had no bare CR inside a payload and no body ending between CR and LF; both added, then caught"),
  "C16": ("patch_ported.diff", True, "C16:answer_order", "patch ported (the sort line moved because of the duplicate-call fix); missed at first because the scripted call ids were in lexicographic = emission order; ids changed to call_9/call_10/call_11, then caught"),
  "C17": ("patch.diff", True, "C17:stored_output_differs / missing_bytes", "caught as built (all chunk compositions x preview limits)"),
- "C18": ("patch.diff", True, "C18:two_authorities:acquire:Emptyx2", "caught as built; not masked by the known stale-cleanup finding because the Empty leftover state has no cleanup step"),
+ "C18": ("patch_ported.diff", True, "C18:acquire:two_authorities:HalfLockx2@syscalls", "caught as built on the tree it was written against (take-over of a zero-length lock.json inside try_acquire). Fix 2229043 rewrote try_acquire (atomic publication), so the change was ported: take over a zero-length lock when the hard link fails. The ported change has no source hook between its length check and its write, and the hook-level exploration MISSED it; it is caught since every file-system call of the primitives is a scheduling point (system-call shim)"),
  "C19": ("patch.diff", True, "C19:secret_in_frames:secret_header_value_with_newline", "the two malformed-header secret sources were added to the product because of this change's report; caught with them"),
  "C20": ("patch.diff", True, "C20:lookup:get_by_seq:wrong_frame (held seqs [0, 5, 2], get_by_seq(1))", "caught as built (out-of-order / repeated seqs are in the frame alphabet)"),
 }
